@@ -102,6 +102,11 @@ def m_cast(src: Term, type_pred: Callable[[Term], bool], what: str) -> Callable[
 
 
 def check_new(ctx: Ctx, r: RuleResult, key: str, where: str, got: Term, exp: Expect) -> bool:
+    if isinstance(got, New):
+        dt = got.get('data_type')
+        if dt is not None and not isinstance(dt, Default):
+            r.fail(f'{key}:data_type', f'the callback overrides the type set of the new {got.cls} node ({dt!r}) instead of leaving it to the constructor: well-typed uses of the node are rejected / ill-typed ones accepted', where)
+            return False
     got = resolve_defaults(ctx, got)
     if not isinstance(got, New) or got.cls != exp.cls:
         r.fail(key, f'callback builds {str(got)[:120]}, expected a {exp.cls}', where, exp.cls, str(got)[:200])
